@@ -45,6 +45,7 @@ def run(ctx):
             ctx.guard("C04", "invpair", lambda: features.invpair(ctx, prog, scope=r"hash::algorithms::parse_|::from_bytes|::from_str|hash_dual::algorithms::(compress_block_hash_with_rle|update_rle_block)", floors=(6, 4)))
         ctx.guard("C04", "casts", lambda: casts.census(ctx, prog, scope='hash::algorithms::parse_|::from_bytes|::from_str|hash_dual::algorithms::(compress_block_hash_with_rle|update_rle_block)', floor=2))
         ctx.guard("C04", "const values", lambda: data.const_census(ctx, prog, data.CONST_SCOPES["C04"], floor=1))
+        ctx.guard("C04", "panic conditions", lambda: beliefs.live_census(ctx, prog, beliefs.SCOPES["C04"][0]))
         ctx.guard("C04", "validator-outcomes", lambda: normal.validator_outcomes(ctx, prog))
         ctx.guard("C04", "parser-init", lambda: parser.initial_values(ctx, prog))
         ctx.guard("C04", "run-counters", lambda: normal.run_counters(ctx, prog, ("validator", "parser")))
